@@ -289,7 +289,7 @@ func Ob_C12C04_Timeout_ReplicaReduction() {
 // C02/C12 second timeout round: the order already carries a shard that timed out earlier next to the
 // replacement that is waiting now; the end blocker returns (no panic with more spare providers than waiting
 // shards) and hands out at most one replacement per waiting shard.
-func Ob_C02C12C15_Timeout_SecondRound() {
+func Ob_C02C12C13C15_Timeout_SecondRound() {
 	w := NewWorld()
 	sym.SetBound("Order.Shards", 2)
 	sym.SetEnumBound("node", nodetypes.NodeKeyPrefix, 2)
